@@ -1,1 +1,293 @@
-/-! Property theorems for C10 (not built yet). -/
+import Cellml.C10.Builds
+import Cellml.Props.C08
+
+/-! # C10 — variable roles and initial-state values follow from the equations alone
+
+    Model: `Cellml/Model/Roles.lean` (`RModel` = the C08 model state + the right-hand side of every equation;
+    `stateVars`, `freeVar`, `derivatives`, `derivedQuantities`, `isState`, `isConstant`, `getValue`), the code of
+    cellmlmanip/model.py 96-176 and 334-388 after the two `fix:` commits recorded in findings/C10.json.
+    Specification: `Cellml/C10/Den.lean` (`Den M (.v v) q`: the definition closure of `v` denotes `q` at the initial
+    state — an inductive relation, no fuel, no memo, no evaluation order); `Cellml/C10/WF.lean` (`WF`: well-formed).
+
+    Every theorem is for ALL well-formed models / all histories of API calls (no bound on the number of variables,
+    the depth of the definitions or the length of the history). The tie to the Python code is the correspondence check
+    `harness/props/c10.py`. -/
+
+namespace Cellml.Props.C10
+open Model
+
+-- ------------------------------------------------------------------------------------------------ roles
+/-- the state variables are exactly the variables defined by an ODE … -/
+theorem states_iff_ode (M : RModel) (W : WF M) (v : Nat) :
+    v ∈ stateVars M ↔ ∃ e ∈ M.st.equations, ∃ t o, e.lhs = .deriv v t o :=
+  (mem_stateVars v).trans (isState_iff W.inv.eq v)
+
+/-- … listed in the order in which they were introduced: `get_state_variables()` is `variables()` filtered by
+    `is_state`, and `order_added` strictly increases along it -/
+theorem states_in_order (M : RModel) (W : WF M) :
+    stateVars M = M.st.live.filter (isState M) ∧ ((stateVars M).map (orderOf M.st)).Pairwise (· < ·) := by
+  have hlive : ∀ k ∈ stateKeys M.st, k ∈ M.st.live := by
+    intro k hk
+    have hs : isState M k = true := (hasKey_iff_mem_keys k M.st.odeDef).mpr hk
+    obtain ⟨e, he, t, o, hl⟩ := (isState_iff W.inv.eq k).mp hs
+    exact W.live e he k (by simp [Eqn.atoms, hl])
+  have h := states_in_variables_order W.inv hlive
+  refine ⟨h, ?_⟩
+  show ((getStateVariables M.st).map (orderOf M.st)).Pairwise (· < ·)
+  rw [h]
+  have := W.inv.reg.orderInc
+  rw [List.pairwise_map] at this ⊢
+  exact this.filter _
+
+/-- `is_state` says the same -/
+theorem is_state_iff_ode (M : RModel) (W : WF M) (v : Nat) :
+    isState M v = true ↔ ∃ e ∈ M.st.equations, ∃ t o, e.lhs = .deriv v t o := isState_iff W.inv.eq v
+
+/-- the free variable is the variable all ODEs differentiate by (whichever ODE comes first in the dictionary) … -/
+theorem free_is_bvar (M : RModel) (W : WF M) (e : Eqn) (he : e ∈ M.st.equations) (s t o : Nat)
+    (hl : e.lhs = .deriv s t o) : freeVar M = some t := freeVar_of_ode W he hl
+
+/-- … and there is none (`ValueError`) exactly when there is no ODE -/
+theorem free_none_iff (M : RModel) (W : WF M) : freeVar M = none ↔ ∀ e ∈ M.st.equations, bvarOf e = none := by
+  constructor
+  · intro h e he
+    cases hl : e.lhs with
+    | deriv s t o => rw [freeVar_of_ode W he hl] at h; cases h
+    | var v => simp [bvarOf, hl]
+    | other => simp [bvarOf, hl]
+  · exact freeVar_none W.inv.eq
+
+/-- the derivatives are exactly the left-hand sides of the ODEs, sorted by the `order_added` of their state -/
+theorem derivs_exact (M : RModel) (W : WF M) (l : List (Nat × Nat)) (h : derivatives M = .ok l) :
+    (∀ s t, (s, t) ∈ l ↔ ∃ e ∈ M.st.equations, ∃ o, e.lhs = .deriv s t o) ∧
+    l.Pairwise (fun a b => orderOf M.st a.1 ≤ orderOf M.st b.1) ∧
+    l.Perm (derivLhs M.st.equations) := by
+  rw [derivatives_spec W.inv h]
+  exact ⟨fun s t => ((sortBy_perm _ _).mem_iff).trans (mem_derivLhs _ s t), sortBy_sorted _ _, sortBy_perm _ _⟩
+
+/-- the derived quantities are exactly the variables defined by an assignment whose right-hand side is not a bare
+    number with units, sorted by `order_added` -/
+theorem derived_exact (M : RModel) (W : WF M) (l : List Nat) (h : derivedQuantities M = .ok l) :
+    (∀ v, v ∈ l ↔ ∃ e ∈ M.st.equations, e.lhs = .var v ∧ e.bareQuantity = false) ∧
+    l.Pairwise (fun a b => orderOf M.st a ≤ orderOf M.st b) := by
+  rw [derivedQuantities_spec W.inv h]
+  exact ⟨fun v => ((sortBy_perm _ _).mem_iff).trans (mem_computedLhs W v), sortBy_sorted _ _⟩
+
+/-- … and both queries do return (the graph builds) for a well-formed model, provided the left-hand sides print
+    differently — the builder's own sanity assertion; a variable may legally be *named* `Derivative(_x, _t)` -/
+theorem graph_queries_return (M : RModel) (W : WF M)
+    (hstr : ((M.st.equations.filterMap (fun e => lhsNode e.lhs)).map (nodeStr (names M.st))).Nodup) :
+    (∃ l, derivatives M = .ok l) ∧ ∃ l, derivedQuantities M = .ok l := by
+  obtain ⟨g, hg⟩ := graph_builds W hstr
+  exact ⟨⟨_, by unfold derivatives; rw [hg]⟩, ⟨_, by unfold derivedQuantities; rw [hg]⟩⟩
+
+/-- the constants are the variables whose definition mentions no variable -/
+theorem constant_iff_no_var (M : RModel) (W : WF M) (v : Nat) :
+    isConstant M v = true ↔ ∃ e ∈ M.st.equations, e.lhs = .var v ∧ (M.rhs e.tok).vars = [] :=
+  isConstant_iff W.inv.eq v
+
+-- ------------------------------------------------------------------------------------------------ get_value
+/-- `get_value` terminates: with `|variables| + 1` levels of recursion (or more) it never runs out of fuel — the Python
+    code never reaches `RecursionError` on a well-formed model — and more fuel changes no value -/
+theorem getValue_fuel (M : RModel) (W : WF M) (v : Nat) :
+    getValue M v ≠ .error .fuel ∧
+    ∀ F, M.st.live.length < F → ∀ q, getValueFuel M F v = .ok q ↔ getValue M v = .ok q := by
+  have h0 := getValueFuel_good W (M.st.live.length + 1) (Nat.lt_succ_self _) v
+  refine ⟨fun hc => ?_, fun F hF q => ?_⟩
+  · unfold getValue at hc; rw [hc] at h0; exact h0.1 rfl
+  · have h1 := getValueFuel_good W F hF v
+    unfold getValue
+    constructor
+    · intro hq
+      rw [hq] at h1
+      rcases hr : getValueFuel M (M.st.live.length + 1) v with err | q'
+      · rw [hr] at h0; exact absurd h1 (h0.2 q)
+      · rw [hr] at h0; rw [den_unique h0 h1]
+    · intro hq
+      rw [hq] at h0
+      rcases hr : getValueFuel M F v with err | q'
+      · rw [hr] at h1; exact absurd h0 (h1.2 q)
+      · rw [hr] at h1; rw [den_unique h1 h0]
+
+/-- **`get_value` returns exactly what the definitions denote**: for every variable of every well-formed model,
+    `get_value(v)` returns `q` iff evaluating the definition of `v` recursively — states at their initial values, the
+    free variable at 0, a derivative standing for the right-hand side of its ODE — gives `q`; and when the definitions
+    give no number (no definition, a state without initial value, a division by zero) it raises -/
+theorem getValue_denotes (M : RModel) (W : WF M) (v : Nat) (q : Rat) :
+    getValue M v = .ok q ↔ Den M (.v v) q := by
+  have h0 := getValueFuel_good W (M.st.live.length + 1) (Nat.lt_succ_self _) v
+  unfold getValue
+  constructor
+  · intro hq; rw [hq] at h0; exact h0
+  · intro hd
+    rcases hr : getValueFuel M (M.st.live.length + 1) v with err | q'
+    · rw [hr] at h0; exact absurd hd (h0.2 q)
+    · rw [hr] at h0; rw [den_unique h0 hd]
+
+/-- the value does not depend on the order in which `_get_value` visits the dependencies, on the memo, or on which
+    equation comes first: it is a function of the definitions (`Den` is single-valued) -/
+theorem value_unique (M : RModel) (v : Nat) (q q' : Rat) (h : Den M (.v v) q) (h' : Den M (.v v) q') : q = q' :=
+  den_unique h h'
+
+-- ------------------------------------------------------------------------------------------------ history independence
+/-- **none of this depends on how the model was reached**: two histories of API calls (valid edits, rejected edits,
+    graph reads, in any order) that arrive at the same variables and equations give the same answers to all six role
+    queries and the same `get_value` for every variable. Corollary of the C08 invariant (`inv_reachable`): the
+    definition maps and a cached graph are functions of the content. -/
+theorem roles_history_independent (mc₁ mc₂ : Option String) (ops₁ ops₂ : List Op) (rhs : Nat → Expr)
+    (h : content (run mc₁ ops₁) = content (run mc₂ ops₂)) :
+    roles ⟨run mc₁ ops₁, rhs⟩ = roles ⟨run mc₂ ops₂, rhs⟩ :=
+  roles_of_content (C08.inv_reachable mc₁ ops₁) (C08.inv_reachable mc₂ ops₂) h rhs
+
+/-- in particular every answer is the one a freshly built model with the same content gives -/
+theorem roles_as_fresh (mc : Option String) (ops : List Op) (rhs : Nat → Expr) :
+    roles ⟨run mc ops, rhs⟩ = roles ⟨fresh (content (run mc ops)), rhs⟩ := by
+  have i₁ := C08.inv_reachable mc ops
+  refine roles_congr rhs rfl i₁.eq.varDef i₁.eq.odeDef ?_ ?_ ?_
+  · exact ((sameButTypes_eraseTypes _).initOf (s := run mc ops) (s' := fresh (content (run mc ops)))).symm
+  · exact ((sameButTypes_eraseTypes _).orderOf (s := run mc ops) (s' := fresh (content (run mc ops)))).symm
+  · have := congrArg Obs.graph (C08.coherent mc ops)
+    exact this
+
+/-- **… nor on the order of the equations**: two well-formed models holding the same variables and the same SET of
+    equations (`SameSet`: equation lists that are permutations of each other — what histories that add, remove and
+    re-add equations in different orders produce) give the same states in the same order, the same free variable, the
+    same `is_state` / `is_constant`, the same lists of derivatives and derived quantities, and `get_value` returns the
+    same number for every variable. -/
+theorem roles_equation_order_independent (M₁ M₂ : RModel) (W₁ : WF M₁) (W₂ : WF M₂) (h : SameSet M₁ M₂) :
+    stateVars M₁ = stateVars M₂ ∧ freeVar M₁ = freeVar M₂ ∧ isState M₁ = isState M₂ ∧ isConstant M₁ = isConstant M₂ ∧
+    (∀ l₁ l₂, derivatives M₁ = .ok l₁ → derivatives M₂ = .ok l₂ → l₁ = l₂) ∧
+    (∀ l₁ l₂, derivedQuantities M₁ = .ok l₁ → derivedQuantities M₂ = .ok l₂ → l₁ = l₂) ∧
+    (∀ v q, getValue M₁ v = .ok q ↔ getValue M₂ v = .ok q) ∧
+    (∀ i q, Den M₁ i q ↔ Den M₂ i q) :=
+  ⟨stateVars_sameSet W₁ W₂ h, freeVar_sameSet W₁ W₂ h, isState_sameSet W₁.inv.eq W₂.inv.eq h,
+   isConstant_sameSet W₁ W₂ h, fun _ _ => derivatives_sameSet W₁ W₂ h, fun _ _ => derivedQuantities_sameSet W₁ W₂ h,
+   getValue_sameSet W₁ W₂ h, den_sameSet W₁ W₂ h⟩
+
+-- ------------------------------------------------------------------------------------------------ non-vacuity
+/-- x (2.5), z (1), t, a, y, w with `a = 3`, `dx/dt = a*x + t`, `dz/dt = dx/dt * 2` (an ODE whose right-hand side
+    mentions another derivative), `y = dx/dt + 1`, `w = dz/dt + y`; the graph is read in between -/
+def demoOps : List Op :=
+  [.addVariable "x" none (some (5/2)), .addVariable "z" none (some 1), .addVariable "t" none none,
+   .addVariable "a" none none, .addVariable "y" none none, .addVariable "w" none none,
+   .addEquation ⟨0, .var 3, [], [], true⟩,
+   .addEquation ⟨1, .deriv 0 2 1, [.var 3, .var 0, .var 2], [.var 3, .var 0, .var 2], false⟩,
+   .qGraph,
+   .addEquation ⟨2, .deriv 1 2 1, [.deriv 0 2], [.deriv 0 2], false⟩,
+   .addEquation ⟨3, .var 4, [.deriv 0 2], [.deriv 0 2], false⟩,
+   .addEquation ⟨4, .var 5, [.deriv 1 2, .var 4], [.deriv 1 2, .var 4], false⟩]
+
+def demoRhs : Nat → Expr
+  | 0 => .num 3
+  | 1 => .bin .add (.bin .mul (.var 3) (.var 0)) (.var 2)
+  | 2 => .bin .mul (.deriv 0 2) (.num 2)
+  | 3 => .bin .add (.deriv 0 2) (.num 1)
+  | 4 => .bin .add (.deriv 1 2) (.var 4)
+  | _ => .num 0
+
+def demoM : RModel := ⟨run none demoOps, demoRhs⟩
+
+def demoRank : Node → Nat
+  | .deriv 0 2 => 1
+  | .deriv 1 2 => 2
+  | .var 4 => 2
+  | .var 5 => 3
+  | _ => 0
+
+/-- the demo model is well-formed -/
+theorem demo_wf : WF demoM where
+  inv := C08.inv_reachable none demoOps
+  refs := by decide +kernel
+  oneBvar := by decide +kernel
+  freeOk := by decide +kernel
+  live := by decide +kernel
+  closed := by decide +kernel
+  acyclic := ⟨demoRank, by decide +kernel⟩
+  inits := by decide +kernel
+
+example : ((demoM.st.equations.filterMap (fun e => lhsNode e.lhs)).map (nodeStr (names demoM.st))).Nodup := by
+  decide +kernel
+
+/-- all six roles and every value of the demo model, computed by the model of the code -/
+example : stateVars demoM = [0, 1] ∧ freeVar demoM = some 2 ∧ derivatives demoM = .ok [(0, 2), (1, 2)] ∧
+    derivedQuantities demoM = .ok [4, 5] ∧ (demoM.st.live.filter (isConstant demoM)) = [3] := by decide +kernel
+
+example : (demoM.st.live.map (getValue demoM)) =
+    [.ok (5/2), .ok 1, .ok 0, .ok 3, .ok (17/2), .ok (47/2)] := by decide +kernel
+
+/-- hence (by `getValue_denotes`) `y = dx/dt + 1` denotes 3·2.5 + 0 + 1 = 8.5 and `w = dz/dt + y` denotes 2·7.5 + 8.5 -/
+example : Den demoM (.v 4) (17/2) ∧ Den demoM (.v 5) (47/2) :=
+  ⟨(getValue_denotes demoM demo_wf 4 _).mp (by decide +kernel),
+   (getValue_denotes demoM demo_wf 5 _).mp (by decide +kernel)⟩
+
+/-- a second history: equations in another order, `y` removed and re-introduced, a rejected duplicate definition — the
+    same role answers for the variables both models share -/
+def demoOps2 : List Op :=
+  [.addVariable "x" none (some (5/2)), .addVariable "z" none (some 1), .addVariable "t" none none,
+   .addVariable "a" none none, .addVariable "y" none none, .addVariable "w" none none,
+   .addEquation ⟨3, .var 4, [.deriv 0 2], [.deriv 0 2], false⟩,
+   .addEquation ⟨2, .deriv 1 2 1, [.deriv 0 2], [.deriv 0 2], false⟩,
+   .addEquation ⟨1, .deriv 0 2 1, [.var 3, .var 0, .var 2], [.var 3, .var 0, .var 2], false⟩,
+   .addEquation ⟨0, .var 3, [], [], true⟩,
+   .addEquation ⟨9, .var 3, [], [], true⟩,
+   .qGraphNum,
+   .removeEquation ⟨1, .deriv 0 2 1, [.var 3, .var 0, .var 2], [.var 3, .var 0, .var 2], false⟩,
+   .addEquation ⟨1, .deriv 0 2 1, [.var 3, .var 0, .var 2], [.var 3, .var 0, .var 2], false⟩,
+   .addEquation ⟨4, .var 5, [.deriv 1 2, .var 4], [.deriv 1 2, .var 4], false⟩]
+
+example : let M2 : RModel := ⟨run none demoOps2, demoRhs⟩
+    stateVars M2 = [0, 1] ∧ freeVar M2 = some 2 ∧ derivatives M2 = .ok [(0, 2), (1, 2)] ∧
+    derivedQuantities M2 = .ok [4, 5] ∧ M2.st.live.map (getValue M2) = demoM.st.live.map (getValue demoM) := by
+  decide +kernel
+
+/-- the second history satisfies the hypotheses of `roles_equation_order_independent` together with the first -/
+example : WF ⟨run none demoOps2, demoRhs⟩ ∧ SameSet demoM ⟨run none demoOps2, demoRhs⟩ :=
+  ⟨{ inv := C08.inv_reachable none demoOps2, refs := by decide +kernel, oneBvar := by decide +kernel,
+     freeOk := by decide +kernel, live := by decide +kernel, closed := by decide +kernel,
+     acyclic := ⟨demoRank, by decide +kernel⟩, inits := by decide +kernel },
+   { rhs := rfl, live := by decide +kernel,
+     init := by
+      funext i
+      have : ∀ j, j < 6 → initOf demoM.st j = initOf (run none demoOps2) j := by decide +kernel
+      by_cases hi : i < 6
+      · exact this i hi
+      · have h1 : demoM.st.heap.length = 6 := by decide +kernel
+        have h2 : (run none demoOps2).heap.length = 6 := by decide +kernel
+        simp only [initOf]
+        rw [List.getElem?_eq_none (by omega), List.getElem?_eq_none (by omega)],
+     order := by
+      funext i
+      have : ∀ j, j < 6 → orderOf demoM.st j = orderOf (run none demoOps2) j := by decide +kernel
+      by_cases hi : i < 6
+      · exact this i hi
+      · have h1 : demoM.st.heap.length = 6 := by decide +kernel
+        have h2 : (run none demoOps2).heap.length = 6 := by decide +kernel
+        simp only [orderOf]
+        rw [List.getElem?_eq_none (by omega), List.getElem?_eq_none (by omega)],
+     eqs := by decide +kernel }⟩
+
+-- ------------------------------------------------------------------------------------------------ before the fixes
+/-- `_get_value` as it was: a definition that mentions a derivative raises (`Can't calculate derivative wrt 0`) although
+    the definitions denote 8.5 — the repaired evaluator returns it -/
+theorem today_derivative_raises :
+    getValueToday demoM 4 = .error .derivativeWrtNumber ∧ getValueToday demoM 5 = .error .derivativeWrtNumber ∧
+    getValue demoM 4 = .ok (17/2) := by decide +kernel
+
+/-- … and a variable defined as another variable (`y = x`) raises `AttributeError` although it denotes 2.5 -/
+theorem today_alias_raises :
+    let ops : List Op := [.addVariable "x" none (some (5/2)), .addVariable "t" none none, .addVariable "y" none none,
+      .addEquation ⟨0, .deriv 0 1 1, [], [], true⟩, .addEquation ⟨1, .var 2, [.var 0], [.var 0], false⟩]
+    let M : RModel := ⟨run none ops, fun tok => if tok = 1 then .var 0 else .num 1⟩
+    getValueToday M 2 = .error .floatHasNoAtoms ∧ getValue M 2 = .ok (5/2) := by decide +kernel
+
+/-- outside well-formedness the answers do depend on more than the set of equations: with a definition for the free
+    variable, `get_value(t)` is that definition while every other right-hand side sees `t = 0` (the preloaded memo) -/
+theorem free_variable_with_definition :
+    let ops : List Op := [.addVariable "x" none (some 1), .addVariable "t" none none, .addVariable "y" none none,
+      .addEquation ⟨0, .deriv 0 1 1, [.var 1], [.var 1], false⟩, .addEquation ⟨1, .var 1, [], [], true⟩,
+      .addEquation ⟨2, .var 2, [.var 1], [.var 1], false⟩]
+    let M : RModel := ⟨run none ops, fun tok => if tok = 0 then .var 1 else if tok = 1 then .num 5 else
+      .bin .add (.var 1) (.num 1)⟩
+    getValue M 1 = .ok 5 ∧ getValue M 2 = .ok 1 := by decide +kernel
+
+end Cellml.Props.C10
